@@ -57,7 +57,7 @@ pub fn arm_compare(kind: &OpCompare, left: &Box<Node>, right: &Box<Node>, contex
 pub fn arm_op_sum(kind: &OpSum, left: &Box<Node>, right: &Box<Node>, context: Option<&CellReferenceRC>, displace_data: &DisplaceData, export_to_excel: bool, locale: &Locale, language: &Language) -> String
     requires env_ok(context, displace_data, export_to_excel, locale, language)
 //@arm base/src/expressions/parser/stringify.rs stringify `OpSumKind { kind, left, right } =>`
-//@rewrite `| matches!(**right, CompareKind { .. })` => `|| matches!(**right, CompareKind { .. })`
+//@rewrite* ` | matches!(**right, CompareKind { .. })` => ` || matches!(**right, CompareKind { .. })`
 //@rewrite `format!("{left_str}{kind}{right_str}")` => `format!("{left_str}{right_str}")`
 //@end
 pub fn arm_op_product(kind: &OpProduct, left: &Box<Node>, right: &Box<Node>, context: Option<&CellReferenceRC>, displace_data: &DisplaceData, export_to_excel: bool, locale: &Locale, language: &Language) -> String
